@@ -81,7 +81,7 @@ def cli_case(arg):
         argv = [cmd, "--format", fmt] + (["--parallel"] if par else []) + ["."]
         r = runner.cli(argv, root, timeout=240)
         out.append({"argv": argv, "exit": r.exit, "signal": r["signal"], "timeout": r["timeout"], "traceback": "Traceback (most recent call last)" in r.err,
-                    "swallowed": r["swallowed"], "err": r.err[-1500:]})
+                    "swallowed": r["swallowed"], "err": r.err[-1500:], "fams": re.findall(r"/src/linters/([a-z_]+)/", ANSI.sub("", r.err))[-3:]})
     return out
 
 
@@ -135,14 +135,25 @@ def make_cases(ctx, rng):
               "'\\N{BULLET}'", "u'x'", "rb'\\d'"]
     tok_rs = ["0xFFFF_FFFF_FFFF_FFFF_FFFF_FFFF_FFFF_FFFFu128", "1e400", "r#\"raw \"quoted\" text\"#", "b\"bytes\\xff\"", "'\\u{10FFFF}'", "0b1111_0000u8", "1_000_000i64", "9" * 300,
               "0o777", "1.0e-7f64", "b'\\''", "'a", "340282366920938463463374607431768211455"]
+    # legitimate constructs that span lines or end a line in an unusual character (string continuations, raw / nested literals, comments in odd places)
+    tok_js += ["\"abc \\\ndef\"", "'abc \\\ndef'", "`tpl \\\nmore ${a} \\`", "`a\n${\n  a\n}\nb`", "/\\/[\"'`]/.test(a)", "a /* \" ' ` */ + 1", "a // trailing \\\n  + 1", "\"\\\\\"",
+               "'\\''", "`\\``", "a\n  ?.b\n  ?.c", "(\n  a\n)", "{ k: \"}\" }.k", "\"\\u{1F600}\""]
+    tok_py += ["\"abc \\\ndef\"", "'abc' \\\n        'def'", "('abc'\n             'def')", "\"\"\"tri \" ' \\\n\"\"\"", "f'{a!r}' f\"{a:>{3}}\"", "a  # trailing \\", "(\n        a\n    )",
+               "r'\\'", "'\\\\'", "[\n        a,  # c\n    ][0]", "lambda: (yield)", "f'{\"x\" \"y\"}'"]
+    tok_rs += ["\"usage: tool \\\n        more\"", "b\"bytes \\\n   more\"", "r\"raw\nline\"", "r##\"a \"# b\"##", "'\"'", "'\\\\'", "\"\\\\\"", "a /* /* nested \" */ ' */ + 1", "a // trailing \\\n        + 1",
+               "\"{\"", "\"}\"", "'{'", "b'\\\\'", "\"a\\\n\"", "{ let s: &'static str = \"x\"; s.len() as i64 }"]
     for lang, toks in (("js", tok_js), ("ts", tok_js), ("py", tok_py), ("rs", tok_rs)):
         for ti, tok in enumerate(toks):
+            # the token once in a plain function and once inside a class / struct + impl (class-level analyses count and scan those lines themselves)
             if lang == "py":
-                body = "TOKEN_LIMIT = %s\n\n\ndef tok_fn(a):\n    value = %s\n    if a in (\"x\", %s):\n        return value\n    return check(a, %s)\n" % (tok, tok, tok, tok)
+                body = ("TOKEN_LIMIT = %s\n\n\ndef tok_fn(a):\n    value = %s\n    if a in (\"x\", %s):\n        return value\n    return check(a, %s)\n\n\n"
+                        "class TokHolder:\n    def __init__(self, a):\n        self.a = a\n\n    def pick(self, a):\n        value = %s\n        return value\n\n    def other(self):\n        return self.a\n") % (tok, tok, tok, tok, tok)
             elif lang == "rs":
-                body = "fn tok_fn(a: i64) -> i64 {\n    let value = %s;\n    check(a, %s)\n}\n" % (tok, tok)
+                body = ("fn tok_fn(a: i64) -> i64 {\n    let value = %s;\n    check(a, %s)\n}\n\npub struct TokHolder {\n    a: i64,\n}\n\nimpl TokHolder {\n    pub fn pick(&self, a: i64) -> i64 {\n        let value = %s;\n"
+                        "        check(a, 0)\n    }\n\n    pub fn other(&self) -> i64 {\n        self.a\n    }\n}\n") % (tok, tok, tok)
             else:
-                body = "function tokFn(a) {\n  const value = %s;\n  if (a === %s) { return value; }\n  return check(a, %s);\n}\n" % (tok, tok, tok)
+                body = ("function tokFn(a) {\n  const value = %s;\n  if (a === %s) { return value; }\n  return check(a, %s);\n}\n\nclass TokHolder {\n  pick(a) {\n    const value = %s;\n    return value;\n  }\n\n"
+                        "  other() {\n    return this.a;\n  }\n}\n") % (tok, tok, tok, tok)
             cases.append({"id": "tok:%s:%d" % (lang, ti), "name": "bad/tok%d%s" % (ti, ext[lang]), "data": body.encode("utf-8", "surrogatepass"), "mclass": "token", "lang": lang,
                           "token": tok[:40]})
     # degenerate contents under every kind of name (known extension, unknown extension, none): the classes the property lists, at their smallest
@@ -322,6 +333,10 @@ def run(ctx):
             elif r["exit"] not in (0, 1):
                 errs = re.findall(r"(\w+(?:Error|Exception))[^\n]*", ANSI.sub("", r["err"]))
                 key = raised_key(ANSI.sub("", r["err"])[ANSI.sub("", r["err"]).rfind(errs[-1]):]) if errs else "cli-exit-%s:%s" % (r["exit"], case["mclass"].split("+")[0])
+                if errs:
+                    # same mechanism key as on the library path: the rule family of the innermost linter frame of the logged traceback
+                    fams = r.get("fams") or []
+                    key += ":" + (fams[-1] if fams else "core")
                 ctx.discrepancy(key, "%s: `thailint %s` exit %s: %s" % (case["id"], " ".join(r["argv"]), r["exit"], r["err"][-150:]), rep, files)
             elif r["traceback"] and not r["swallowed"]:
                 ctx.discrepancy("cli-traceback:%s" % r["argv"][0], "%s: traceback on stderr: %s" % (case["id"], r["err"][-150:]), rep, files)
